@@ -161,6 +161,47 @@ pub fn err_kind(e: &HypercoreError) -> String {
     format!("{}:{}", err_class(e), msg)
 }
 
+/// Resolve an abstract clear against a log of `len` blocks; None = skipped (empty log).
+pub fn clear_range_for(len: u64, a: u16, n: u32) -> Option<(u64, u64)> {
+    if len == 0 {
+        return None;
+    }
+    let start = sel(a, len);
+    let end = (start + 1 + n as u64).min(2 * len + 2);
+    Some((start, end))
+}
+
+/// The model state after `op` succeeded on a core in state `m`.
+pub fn model_after(m: &ListModel, op: &Op) -> ListModel {
+    let mut out = m.clone();
+    match op {
+        Op::Append(b) => {
+            if m.writeable {
+                out.append(b.bytes())
+            }
+        }
+        Op::Batch(bs) => {
+            if m.writeable {
+                bs.iter().for_each(|b| out.append(b.bytes()))
+            }
+        }
+        Op::Big(n) => {
+            if m.writeable {
+                let base = m.len();
+                (0..*n as u64).for_each(|i| out.append(big_block(base + i)))
+            }
+        }
+        Op::Clear { a, n } => {
+            if let Some((s, e)) = clear_range_for(m.len(), *a, *n) {
+                out.clear(s, e);
+            }
+        }
+        Op::MakeReadOnly => out.writeable = false,
+        Op::Get(_) | Op::Has(_) | Op::Info | Op::Reopen => {}
+    }
+    out
+}
+
 // ---------------------------------------------------------------- simulator
 
 #[derive(Clone, Copy, Debug, PartialEq, Eq)]
